@@ -131,6 +131,22 @@ pub fn presigned(path: &str, q: &[(String, String)], offset_s: i64, expires: u32
     send("GET", path, &wire_query(&all), vec![("host".into(), host.into())])
 }
 
+/// a correctly presigned URL to which UNSIGNED query parameters are appended afterwards: must be refused (the signature covers
+/// every query parameter except X-Amz-Signature itself)
+pub fn presigned_appended(extra: &[(String, String)]) -> (u16, Vec<String>, String) {
+    let (date, stamp) = now_stamp(0);
+    let host = "localhost";
+    let scope = format!("{date}/us-east-1/s3/aws4_request");
+    let mut all: Vec<(String, String)> = vec![("X-Amz-Algorithm".into(), "AWS4-HMAC-SHA256".into()), ("X-Amz-Credential".into(), format!("{AK}/{scope}")),
+        ("X-Amz-Date".into(), stamp.clone()), ("X-Amz-Expires".into(), "600".into()), ("X-Amz-SignedHeaders".into(), "host".into())];
+    let canonical = format!("GET\n{}\n{}\nhost:{host}\n\nhost\nUNSIGNED-PAYLOAD", uri_encode("/bkt/key", false), canonical_query(&all));
+    let sts = format!("AWS4-HMAC-SHA256\n{stamp}\n{scope}\n{}", sha256_hex(canonical.as_bytes()));
+    let sig = hex(&hmac(&signing_key(&date, "us-east-1", "s3"), sts.as_bytes()));
+    all.push(("X-Amz-Signature".into(), sig));
+    all.extend(extra.iter().cloned());
+    send("GET", "/bkt/key", &wire_query(&all), vec![("host".into(), host.into())])
+}
+
 fn pairs(a: &[String]) -> Vec<(String, String)> {
     a.iter().map(|p| { let (n, v) = p.split_once('=').unwrap_or((p.as_str(), "")); (n.to_owned(), v.to_owned()) }).collect()
 }
@@ -219,6 +235,16 @@ pub fn tamper() -> Value {
         let (st, calls, body) = header_auth_with("/bkt/key", &[], f);
         if !calls.is_empty() || st < 400 {
             return json!({"violates": true, "input": {"presented_signature": what, "request": "GET /bkt/key, SigV4 header auth, otherwise correctly signed"},
+                          "expected": "refused (SignatureDoesNotMatch / 4xx), no backend invocation", "observed": {"status": st, "backend_calls": calls, "body": body.chars().take(160).collect::<String>()},
+                          "replay_args": ["sigv4-tamper"]});
+        }
+    }
+    // presigned URLs with parameters appended after signing
+    for extra in [("foo", "bar"), ("x-amz-signature", "0000"), ("X-AMZ-SIGNATURE", "1"), ("X-Amz-Signature2", "1"), ("versionId", "7"), ("x-amz-expires", "99999")] {
+        n += 1;
+        let (st, calls, body) = presigned_appended(&[(extra.0.to_owned(), extra.1.to_owned())]);
+        if !calls.is_empty() || st < 400 {
+            return json!({"violates": true, "input": {"request": "GET /bkt/key, correctly presigned (SigV4), then an unsigned query parameter appended", "appended": format!("{}={}", extra.0, extra.1)},
                           "expected": "refused (SignatureDoesNotMatch / 4xx), no backend invocation", "observed": {"status": st, "backend_calls": calls, "body": body.chars().take(160).collect::<String>()},
                           "replay_args": ["sigv4-tamper"]});
         }
@@ -329,6 +355,7 @@ pub fn chunked(a: &[String]) -> Value {
 ///   bad-signature       one hex digit of x-amz-signature changed                   -> must be refused
 ///   other-secret        signed with a secret that is not the named key's            -> must be refused
 ///   binary-file         valid; the file contains CR/LF runs, boundary look-alikes   -> stored exactly
+///   unterminated-file   the body ends without the closing delimiter of the file part    -> must be refused (no object write)
 ///   field-whitespace    valid; key ends in a space, a metadata value in CRLF SP TAB -> key and metadata arrive exactly
 pub fn post_form(a: &[String]) -> Value {
     let variant = a[0].as_str();
@@ -365,7 +392,12 @@ pub fn post_form(a: &[String]) -> Value {
     }
     body.extend_from_slice(format!("--{boundary}\r\nContent-Disposition: form-data; name=\"file\"; filename=\"f.bin\"\r\nContent-Type: application/octet-stream\r\n\r\n").as_bytes());
     body.extend_from_slice(&file);
-    body.extend_from_slice(format!("\r\n--{boundary}--\r\n").as_bytes());
+    if variant == "unterminated-file" {
+        // the body ends inside the file part: no closing delimiter ever arrives
+        body.extend_from_slice(b"\r\n--some-other-boundary--\r\n");
+    } else {
+        body.extend_from_slice(format!("\r\n--{boundary}--\r\n").as_bytes());
+    }
     // frames of 1 KiB (the form's field part arrives in the first frame, the file may straddle frames)
     let (st, calls, rbody) = send_body_framed("POST", "/bkt", "", vec![("host".into(), "localhost".into()),
         ("content-type".into(), format!("multipart/form-data; boundary={boundary}")), ("content-length".into(), body.len().to_string())], body, 1024);
